@@ -68,14 +68,20 @@ Definition witness : env := fun n =>
      ("ecdhPubBytes:=ecdhPriv.PublicKey().Bytes()", 65);
      ("n", 1); ("size@E1", 1); ("i@L1", 1); ("i@E1", 1); ("padlen:=w - (len(buf) % w)", 1); ("k.outputSize", 128);
      ("privateKeyBytes", 31); ("publicKeyBytes", 95); ("orig", 7); ("participant", 7); ("s.running", 1);
-     ("s.jointRunning", 1); ("data[0]", 200)]
+     ("s.jointRunning", 1); ("data[0]", 200); ("data", 1); ("origin", 1)]
   with Some v => v | None => 0 end.
 
-Ltac nonvacuous :=
-  exists witness; let K := fresh "K" in (intro K; apply K; clear K);
+(* for the rejection theorems about invalid group sizes *)
+Definition witness_small : env :=
+  fun n => if String.eqb n "size" then 1 else if String.eqb n "data" then 33 else witness n.
+
+Ltac nonvacuous_with w :=
+  exists w; let K := fresh "K" in (intro K; apply K; clear K);
   unfold nlen, kmac_counters, dkg_params, qual_vectors, vectors_ok, note_name;
   lazy -[Z.add Z.sub Z.mul Z.modulo Z.le Z.lt Z.ge Z.gt Z.div Z.opp];
-  repeat split; intros; try lia; try congruence.
+  repeat split; intros; try lia; try congruence; try (Zify.zify; Z.div_mod_to_equations; lia).
+
+Ltac nonvacuous := solve [nonvacuous_with witness | nonvacuous_with witness_small].
 
 
 (* ============ BLS signatures, aggregation, threshold signatures ============ *)
